@@ -56,7 +56,7 @@ pub fn new_graph(specs: Specs) -> G {
 }
 
 /// generous step budget for container operations on the small lifecycle graphs
-pub const OP_BUDGET: u64 = 5_000_000;
+pub const OP_BUDGET: u64 = 50_000_000;
 
 /// Apply one operation to the real graph. Derived operations and restarts replace `*g` on Ok.
 pub fn apply(g: &mut G, op: &Op) -> Result<Out, Panicked> {
